@@ -65,8 +65,17 @@ def two_mutex(a, b):
 SCENARIOS["S8"] = dict(threads=[main_start_join(2, [op(R, x=0), op("emit"), op(R, x=1), op("emit")]), two_mutex(0, 1), two_mutex(1, 0)],
                        mutexes=2, condvars=0, vars=2, expect=[[0, 2], [0, 2]])
 
-QUICK = ["S1", "S3", "S4", "S5", "S6", "S7", "S8"]
-ALL = ["S1", "S2", "S3", "S4", "S5", "S6", "S7", "S8"]
+# S9: a far-timed waiter and untimed waiters are paused at the same time (ordering of the paused list), then all are woken
+t_far = [op(L, m=0, d=2), op(R, x=0, cs=0), op(W, x=0, k=1, cs=0), op(U, m=0), op("end")]
+t_unt = [op(L, m=1), op(R, x=1, cs=1), op(W, x=1, k=5, cs=1), op(U, m=1), op("end")]
+t_unt2 = [op(L, m=1), op(R, x=1, cs=1), op(W, x=1, k=5, cs=1), op(U, m=1), op("end")]
+SCENARIOS["S9"] = dict(threads=[[op(L, m=0), op(L, m=1), op("start", u=1), op("start", u=2), op("start", u=3), op("yield"), op("yield"), op("yield"),
+                                 op(U, m=1), op(U, m=0), op("join", u=1), op("join", u=2), op("join", u=3),
+                                 op(R, x=0), op("emit"), op(R, x=1), op("emit"), op("end")], t_far, t_unt, t_unt2],
+                       mutexes=2, condvars=0, vars=2, expect=[[0, 1], [0, 10]])
+
+QUICK = ["S9", "S1", "S3", "S4", "S5", "S6", "S7", "S8"]
+ALL = ["S9", "S1", "S2", "S3", "S4", "S5", "S6", "S7", "S8"]
 
 
 def tla_value(v):
